@@ -65,7 +65,13 @@ def noFalsePass (cfg : Cfg) (t : Test) (real : Toks) : List String :=
         if r.outcome == "PASS" && !measurementsPass cfg (p.beh k).meas then ["failed-or-unset-measurement-in-pass-record"] else [])))
 
 def handle (ts : Toks) : String :=
-  let (inp, real) := splitAt "#" ts
+  let (inp, real0) := splitAt "#" ts
+  let crashTypes := (real0.filter (·.startsWith "X:crashtype:")).map (fun t => (t.drop 12).toString)
+  let real := real0.filter (fun t => !t.startsWith "X:crashtype:")
+  -- the executor thread died and the run is PASS all the same: reported under the exception that killed it
+  if real.contains "O:PASS" && !real.contains "X:crash:0" && !crashTypes.isEmpty then
+    reply true false ("executor-itself-failed-yet-PASS:" ++ ",".intercalate crashTypes)
+  else
   match test inp with
   | some ((cfg, t), []) =>
     let st := runTest cfg t
